@@ -538,7 +538,7 @@ let str_of_text t = String.concat "," (List.map (fun c -> string_of_int (int_of_
 let not_found_str = "HTTP/1.0 404 Not Found\r\nContent-Type: text/plain\r\n\r\nnot found"
 let not_found_bytes = List.map (fun c -> n_of_int (Char.code c)) (List.init (String.length not_found_str) (String.get not_found_str))
 let cold_outs : int list list ref = ref []
-type netop = NFetch of int | NUnknown of jv * int | NListing of int * int * int | NWebfinger of int list
+type netop = NFetch of int | NUnknown of jv * int | NListing of int * int * int | NWebfinger of int list | NPaging of int * int list
 type netcase = { cap : int; base : int; universe : n list array; world : (int * n list * int) list; modes : int list; ops : netop list }
 let take_netcase args =
   let (cap, r) = take1 args in
@@ -557,6 +557,7 @@ let take_netcase args =
       let (o, r) = (if k = 0 then let (ui, r) = take1 r in (NFetch ui, r)
                     else if k = 2 || k = 3 then let (ui, r) = take1 r in let (cnt, r) = take1 r in (NListing (k, ui, cnt), r)
                     else if k = 4 then let (bs, r) = take_list r in (NWebfinger bs, r)
+                    else if k = 5 then let (ui, r) = take1 r in let (am, r) = take_list r in (NPaging (ui, am), r)
                     else let (v, r) = take_jv r in let (si, r) = take1 r in (NUnknown (v, si), r)) in
       let (rest, r) = ops (n - 1) r in (o :: rest, r) in
   let (ops, _) = ops nops r in
@@ -688,6 +689,28 @@ let run_net args lib =
          | None -> out := !out @ [[1]]
          | Some vs -> out := !out @ [0 :: 4 :: List.length vs :: List.concat_map (fun v -> [1; v]) vs @ [0]]);
         cold := !cold @ [[-1]]
+      | NPaging (ui, amounts) ->
+        (* pub.New(url) as a collection + repeated Harvest: Paging.remote_requests (loads from a cold cache; this op's requests are
+           not part of the compared log) *)
+        let txt s = List.map (fun c -> n_of_int (Char.code c)) (List.init (String.length s) (String.get s)) in
+        let tag_of e = (match e with
+            | JObj o when not (kind_in post_kinds o) -> -1       (* NewTangible: not a post (and the generator makes no other kinds) *)
+            | JObj o -> (match get_string o (txt "name") with
+                | Present (t :: digits) when int_of_n t = 116 && digits <> [] && List.for_all (fun d -> int_of_n d >= 48 && int_of_n d <= 57) digits ->
+                  List.fold_left (fun a d -> a * 10 + (int_of_n d - 48)) 0 digits
+                | _ -> -9)
+            | _ -> -1) in
+        (match remote_requests w is_https resolve cap parse_ref url_parse host_of (JStr nc.universe.(ui)) (List.map nat_of_int amounts) with
+         | None -> out := !out @ [[1]]
+         | Some reqs ->
+           let rec enc reqs = (match reqs with
+               | [] -> []
+               | (d, more) :: rest ->
+                 let body = List.map (function DItem (e, _) -> tag_of e | DLoadFail _ -> -1 | DTooManyEmpty -> -2 | DOutOfFuel -> -3) d in
+                 (List.length d :: body) @ [if more then 1 else 0] @ enc rest) in
+           let vals = enc reqs in
+           out := !out @ [0 :: 3 :: List.length vals :: List.map (fun v -> v + 10) vals @ [0]]);
+        cold := !cold @ [[-1]]
       | NWebfinger bs ->
         let https_p = List.map n_of_int [104;116;116;112;115;58;47;47] in
         let mk_url host uri =
@@ -728,7 +751,7 @@ let orc_net args lib impl =
             let (v, r3) = take_jv r2 in
             (match op with
              | NFetch _ -> let (src, r4) = take_text r3 in proj := !proj @ [0 :: put_jv v @ put_text src]; r := r4
-             | NListing _ | NUnknown _ | NWebfinger _ ->
+             | NListing _ | NUnknown _ | NWebfinger _ | NPaging _ ->
                let (has, r4) = take1 r3 in
                if has = 0 then (proj := !proj @ [0 :: put_jv v @ [0]]; r := r4)
                else let (id, r5) = take_text r4 in (proj := !proj @ [0 :: put_jv v @ (1 :: put_text id)]; r := r5))
